@@ -19,6 +19,10 @@ CHECKS = {
             "structural operations.", "explicit-state bounded exhaustive exploration, differential oracle between encodings"),
     "C03": ("model_checking", "E1", "Every array (ties, zeros, missing values and lists, empty lists) x encoding x 10 reducers x every axis "
             "x mask_identity x keepdims against the group-by-coordinates definition.", "explicit-state bounded exhaustive exploration, reference-model oracle"),
+    "C04": ("exploration", "E4", "All ordered pairs of operands (awkward arrays over a numeric type menu incl. size-1 regular dimensions, "
+            "options, canonical + one non-canonical encoding; Python scalars; 1-2-d NumPy arrays) x 7 binary and 2 unary ufuncs through the "
+            "repository's own broadcast_and_apply / array_ufunc / operator mix-in, against reference NumPy-right / tree-left broadcasting.",
+            "bounded exhaustive enumeration of operand pairs on the real Python layer (tier L3), reference-model oracle"),
     "C05": ("model_checking", "E1", "num / flatten / local_index at every axis on every array x encoding against list laws; illegal axes "
             "must raise.", "explicit-state bounded exhaustive exploration, reference-model oracle"),
     "C06": ("model_checking", "E1", "sort/argsort at every axis x ascending x stable on arrays with ties, NaN, strings, missing values; "
@@ -43,9 +47,17 @@ CHECKS = {
             "compared before/after, plus the check/print/convert entry points on the full valid+invalid layout grammar; a signal, "
             "sanitizer report, hang, modified input or unstable result is a violation.",
             "bounded exhaustive exploration of operation histories under sanitizers (ASan/UBSan as the memory oracle)"),
+    "C16": ("exploration", "E4", "Every array of the type menu x encodings through to_buffers/from_buffers (form_key, key_format, raw-bytes "
+            "containers, partitions), pickle, from_numpy/to_numpy over shapes x dtypes x memory layouts and masks, to_arrow/from_arrow x "
+            "32-bit options; round-trip value, type and (where promised) option-ness compared by the reference layout interpreter.",
+            "bounded exhaustive enumeration of conversion round trips on the real Python layer (tier L3)"),
 }
 
 ENGINES = [
+    {"name": "E4", "path": "mirror/install.py mirror/*.py checks/c04_broadcasting.py checks/c16_conversions.py",
+     "serves_properties": ["C04", "C16"],
+     "kind_free_text": "the repository's own Python layer (/repo/src/awkward) imported unmodified on top of a pure-Python mirror of "
+                       "awkward._ext that forwards every behaviour to the freshly built libawkward"},
     {"name": "E1", "path": "mc/e1.py mc/opalpha.py model/ checks/c0*.py checks/c11_validity.py",
      "serves_properties": sorted(k for k, v in CHECKS.items() if v[1].startswith("E1")),
      "kind_free_text": "explicit-state exploration of (physical layout, operation) transitions on the real libawkward built from /repo, "
